@@ -210,7 +210,10 @@ def main(argv=None):
                                              [:600]))
 
     wall = time.time() - t0
-    if not args.replay:
+    # evidence describes /repo itself: runs against scratch copies of the tree
+    # (seeded changes) must not overwrite it
+    if not args.replay and not os.environ.get('RPVERIF_NO_EVIDENCE') and \
+       os.path.realpath(os.environ.get('RPVERIF_REPO', '/repo')) == '/repo':
         core.write_evidence(mod, ctx, res, len(fresh), known_hit, wall)
 
     for line in lines:
